@@ -201,6 +201,8 @@ def k19(res, tier, seed, tag="k19"):
 # ------------------------------------------------------------------ correspondence
 def correspondence(res, tier, seed):
     k19(res, tier, seed, tag="k19c07")
+    from . import drivers
+    drivers.k20(res, tier, seed, tag="k20c07")      # ISIMIP's month mode: every time step once, from its month's sample
     m = W()
     r = C.rng_for(seed, "c07-corr")
     n = 120 if tier == "quick" else 1200
